@@ -221,8 +221,8 @@ def valid_templates(tier="quick"):
         dsp = dyndep_text([("out", [], [sp], False)])
         st = [Stmt("x", ex=["s"]), Stmt("out", ex=["in"], oo=["dd"], dyndep="dd", extra_reads=["x"]), Stmt("top", ex=["out"])]
         ops, nb = common_ops()
-        T.append(_mk("existing_adds_input_spelled_" + spn, [Variant("v0", st)], {"dd": dsp}, ops, [nb], min(depth, 4), ["existing", "spelling"]))
-        T.append(_mk("existing_adds_input_spelled_" + spn + "/fresh", [Variant("v0", st)], {"dd": dsp}, ops, [], 2, ["existing", "spelling", "fresh"]))
+        T.append(_mk("existing_adds_input_spelled_" + spn, [Variant("v0", st)], {"dd": dsp}, ops, [nb], min(depth, 4), ["existing", "spelled-input"]))
+        T.append(_mk("existing_adds_input_spelled_" + spn + "/fresh", [Variant("v0", st)], {"dd": dsp}, ops, [], 2, ["existing", "spelled-input", "fresh"]))
     return T
 
 
